@@ -669,6 +669,8 @@ def havoc_target(exe, st, tgt, env, callee):
         exe.flow._havoc_one(st, obj, key, 'call_' + callee)
         if exe.flow.write_log is not None:
             exe.flow.write_log.add((oid, key))
+        if exe.flow.discovery:
+            st.ghost['$w'] = st.ghost.get('$w', frozenset()) | {(oid, key)}
 
 
 _TYPED_RE = re.compile(r'^typed\((.+),\s*["\'](.+)["\']\)\[\*\]$')
